@@ -151,6 +151,26 @@ theorem array1d_roundtrip [DecidableEq α] (mask : List Bool) (slim : List α) (
         = some (Impl.native1dFrom mask slim zero) := by
   simp [array1dFromHdu, array1dHdu, hduForOutput1d, scales1d_roundtrip, array1dFromFits, fileOf]
 
+/-- (masked 1-D arrays held in native form; repair D31) whatever the stored native 1-D array holds under
+    the mask, the HDU written holds the stored value at unmasked entries and **zero at masked entries**
+    (for either flip setting — 1-D data are never flipped), and both readers return exactly that, with
+    the pixel scale written. -/
+theorem native_stored_1d_written_zero_filled [DecidableEq α] (mask : List Bool) (v : List α)
+    (scale zero : α) :
+    (array1dHduNativeStored mask v scale zero).data = .d1 (Impl.applyMask1d mask v zero)
+    ∧ (Impl.applyMask1d mask v zero).length = mask.length
+    ∧ (∀ k, k < mask.length → (Impl.applyMask1d mask v zero)[k]?
+        = some (if mask.getD k true then zero else v.getD k zero))
+    ∧ array1dFromHdu (array1dHduNativeStored mask v scale zero)
+        = some (Impl.applyMask1d mask v zero, scale)
+    ∧ array1dFromFits (fileOf (array1dHduNativeStored mask v scale zero)) 0
+        = some (Impl.applyMask1d mask v zero) := by
+  refine ⟨rfl, by simp [Impl.applyMask1d], ?_, ?_, ?_⟩
+  · intro k hk
+    simp [Impl.applyMask1d, hk]
+  · simp [array1dFromHdu, array1dHduNativeStored, hduForOutput1d, scales1d_roundtrip]
+  · simp [array1dFromFits, array1dHduNativeStored, hduForOutput1d, fileOf]
+
 /-- (1-D masks) read back as the same booleans with the pixel scale written -/
 theorem mask1d_roundtrip [DecidableEq α] (mask : List Bool) (scale zero one : α) (h10 : one ≠ zero) :
     mask1dFromHdu (mask1dHdu mask scale zero one) zero = some (mask, scale)
